@@ -21,6 +21,18 @@ pub fn gen_vecsize(rng: &mut Rng) -> usize {
     }
 }
 
+/// Batch limit; sometimes exactly the number of bases of the first j records,
+/// so that a batch ends exactly on the limit.
+pub fn gen_memory_rec(rng: &mut Rng, records: &[Rec]) -> usize {
+    let total: usize = records.iter().map(|r| r.seq.len()).sum();
+    if !records.is_empty() && rng.chance(1, 5) {
+        let j = rng.usize(1, records.len());
+        let pre: usize = records[..j].iter().map(|r| r.seq.len()).sum();
+        return pre.max(1);
+    }
+    gen_memory(rng, total)
+}
+
 pub fn gen_memory(rng: &mut Rng, total: usize) -> usize {
     match rng.weighted(&[20, 10, 35, 15, 20]) {
         0 => 1,
@@ -43,6 +55,7 @@ pub fn gen_cgr_case(rng: &mut Rng, tier: &str, prop: &str, k: usize) -> Case {
         min_len: 0,
         dup_pct: 4,
             tab_desc_pct: 0,
+            dup_id_pct: 0,
     };
     let mut records = g.gen(rng);
     if k >= 6 {
@@ -71,9 +84,9 @@ pub fn gen_cgr_case(rng: &mut Rng, tier: &str, prop: &str, k: usize) -> Case {
     if stdin {
         container.gz = None;
     }
-    let total: usize = records.iter().map(|r| r.seq.len()).sum();
     let threads = gen_threads(rng);
     let sched = Sched::draw(rng, 3 * records.len() as u64 + 4 * threads as u64 + 8);
+    let records_for_memory = records.clone();
     Case {
         prop: prop.into(),
         tier: tier.into(),
@@ -88,10 +101,11 @@ pub fn gen_cgr_case(rng: &mut Rng, tier: &str, prop: &str, k: usize) -> Case {
             "k" => k,
             "vecsize" => gen_vecsize(rng),
             "threads" => threads,
-            "memory" => gen_memory(rng, total),
+            "memory" => gen_memory_rec(rng, &records_for_memory),
             "norm" => !rng.chance(1, 2),
             "stdin" => stdin,
             "bad_record" => bad,
+            "order" => if rng.chance(1, 2) { 0 } else { rng.range(1, 1 << 40) },
         },
         extra: vec![],
     }
